@@ -1,6 +1,6 @@
 (* One entry point for the correspondence check: numeric opcode + wire value. *)
 From WS Require Import Base.Py.
-From WS Require Folding.Model TP.Model Evaluate.Model Puddle.Model Separator.Model Dibs.Model Baseline.Model Prepare.Model.
+From WS Require Folding.Model TP.Model Evaluate.Model Puddle.Model Separator.Model Dibs.Model Baseline.Model Prepare.Model Stats.Model Syll.Model.
 
 Definition dispatch (op : Z) (j : J) : J :=
   match op with
@@ -22,5 +22,8 @@ Definition dispatch (op : Z) (j : J) : J :=
   | 402 => Prepare.Model.run_prepare j
   | 403 => Prepare.Model.run_gold j
   | 404 => Prepare.Model.run_prep_main j
+  | 1301 => Stats.Model.run_stats j
+  | 1401 => Syll.Model.run_syllabify j
+  | 1402 => Syll.Model.run_syllabify_word j
   | _ => j_bad
   end%Z.
